@@ -236,6 +236,7 @@ type CellOpt struct {
 	MaxLeaves int64  // stop after this many executions (marks the cell capped)
 	Dev       int    // deviation bound (-1: complete product)
 	Chunk     int    // if > 0 the source delivers at most this many bytes per Read call
+	Log       bool   // keep the per-word log on each leaf's tape
 }
 
 // CellStats summarises an exploration.
@@ -259,6 +260,7 @@ func exploreCell(g func() (*spg.Password, error), opt CellOpt, visit func(l *Lea
 		src := &cellSource{ch: ch, fallback: opt.Fallback, maxMenu: opt.MaxMenu}
 		t := tape.New(src)
 		src.t = t
+		t.LogOn = opt.Log
 		if opt.Chunk > 0 {
 			t.ChunkAt, t.Chunks, t.ChunkCycle = 1, []int{opt.Chunk}, true
 		}
